@@ -1,11 +1,14 @@
-(* C20 / integrate_absolute_polynomial  (/repo/include/smooth/polynomial/basis.hpp:418-452).
+(* C20 / integrate_absolute_polynomial  (/repo/include/smooth/polynomial/basis.hpp:427-452).
 
    Two transcriptions of the same control flow, line by line:
      iapQ  over Q   - executable; std::sqrt is an argument (an oracle whose contract  sq x * sq x == x,
                       0 <= sq x  is checked at run time by the correspondence driver on every call);
      iapR  over R   - the real-number meaning (Coq's sqrt); the theorems are about this one, and
                       Proofs/C20_AbsPoly.v relates the two.
-   +infinity (the initial value of mid1/mid2, basis.hpp:421-423) is None;  std::clamp(+inf,t0,t1) = t1.
+   +infinity (the initial value of mid1/mid2, basis.hpp:430-432) is None;  std::clamp(+inf,t0,t1) = t1.
+   The two tests are transcribed as written:  :434  abs(A) < 1e-9 && abs(B) > 1e-9   (Qltb/Rltb, strict)
+                                              :437  abs(A) >= 1e-9                   (Qgeb/Rgeb, non-strict;
+   /repo commit b9fcddd - before it the test was the strict  abs(A) > 1e-9).
    The literal 1e-9 is the binary64 number 0x1.12e0be826d695p-30 = 4835703278458517 / 2^82.
    No proofs in this file. *)
 From Coq Require Import QArith Qabs Reals.
@@ -14,27 +17,29 @@ From Coq Require Import QArith Qabs Reals.
 Definition iap_thr : Q := 4835703278458517 # (2 ^ 82).
 
 Definition Qltb (x y : Q) : bool := match x ?= y with Lt => true | _ => false end.
+(* x >= y *)
+Definition Qgeb (x y : Q) : bool := match x ?= y with Lt => false | _ => true end.
 
 (* std::clamp(v, lo, hi) = (v < lo) ? lo : (hi < v) ? hi : v *)
 Definition clampQ (v lo hi : Q) : Q := if Qltb v lo then lo else if Qltb hi v then hi else v.
 Definition clampoQ (v : option Q) (lo hi : Q) : Q :=
   match v with Some x => clampQ x lo hi | None => hi end.
 
-(* basis.hpp:443  integ(u) = A*u*u*u/3 + B*u*u/2 + C*u *)
+(* basis.hpp:447  integ(u) = A*u*u*u/3 + B*u*u/2 + C*u *)
 Definition integQ (A B C u : Q) : Q := A * u * u * u / 3 + B * u * u / 2 + C * u.
 
-(* basis.hpp:425-439 *)
+(* basis.hpp:434-444 *)
 Definition midsQ (sq : Q -> Q) (thr t0 t1 A B C : Q) : option Q * option Q :=
   if Qltb (Qabs A) thr && Qltb thr (Qabs B) then
-    (Some (clampQ (- C / B) t0 t1), None)                                   (* :427 *)
-  else if Qltb thr (Qabs A) then
-    let res := B * B / (4 * A * A) - C / A in                               (* :430 *)
-    if Qltb 0 res then
-      (Some (- B / (2 * A) - sq res), Some (- B / (2 * A) + sq res))        (* :433-434 *)
+    (Some (clampQ (- C / B) t0 t1), None)                                   (* :436 *)
+  else if Qgeb (Qabs A) thr then                                            (* :437 *)
+    let res := B * B / (4 * A * A) - C / A in                               (* :439 *)
+    if Qltb 0 res then                                                      (* :441 *)
+      (Some (- B / (2 * A) - sq res), Some (- B / (2 * A) + sq res))        (* :442-443 *)
     else (None, None)
   else (None, None).
 
-(* basis.hpp:445-448 *)
+(* basis.hpp:449-452 *)
 Definition iapQ_thr (sq : Q -> Q) (thr t0 t1 A B C : Q) : Q :=
   let '(mid1, mid2) := midsQ sq thr t0 t1 A B C in
   let mid1cl := clampoQ mid1 t0 t1 in
@@ -43,11 +48,11 @@ Definition iapQ_thr (sq : Q -> Q) (thr t0 t1 A B C : Q) : Q :=
 
 Definition iapQ (sq : Q -> Q) := iapQ_thr sq iap_thr.
 
-(* which branch was taken: 1 = linear (:425), 2 = quadratic with two roots (:432), 3 = quadratic, res <= 0,
+(* which branch was taken: 1 = linear (:434), 2 = quadratic with two roots (:441), 3 = quadratic, res <= 0,
    0 = neither condition (treated as sign-constant) *)
 Definition iap_branchQ (thr A B C : Q) : nat :=
   if Qltb (Qabs A) thr && Qltb thr (Qabs B) then 1%nat
-  else if Qltb thr (Qabs A) then
+  else if Qgeb (Qabs A) thr then
     (if Qltb 0 (B * B / (4 * A * A) - C / A) then 2%nat else 3%nat)
   else 0%nat.
 
@@ -55,6 +60,7 @@ Definition iap_branchQ (thr A B C : Q) : nat :=
 Local Open Scope R_scope.
 
 Definition Rltb (x y : R) : bool := if Rlt_dec x y then true else false.
+Definition Rgeb (x y : R) : bool := if Rge_dec x y then true else false.
 
 Definition clampR (v lo hi : R) : R := if Rltb v lo then lo else if Rltb hi v then hi else v.
 Definition clampoR (v : option R) (lo hi : R) : R :=
@@ -65,7 +71,7 @@ Definition integR (A B C u : R) : R := A * u * u * u / 3 + B * u * u / 2 + C * u
 Definition midsR (thr t0 t1 A B C : R) : option R * option R :=
   if Rltb (Rabs A) thr && Rltb thr (Rabs B) then
     (Some (clampR (- C / B) t0 t1), None)
-  else if Rltb thr (Rabs A) then
+  else if Rgeb (Rabs A) thr then
     let res := B * B / (4 * A * A) - C / A in
     if Rltb 0 res then
       (Some (- B / (2 * A) - sqrt res), Some (- B / (2 * A) + sqrt res))
